@@ -84,8 +84,50 @@ func crashed(o ppOut) string {
 	return ""
 }
 
+// ppWant turns the specification's items into bytes: a line item is that line of the input, a
+// render item is pp's own output on the lines of that call's dump alone. k1 / k2 apply the named
+// deviations of the code (held race-header lines discarded; an unterminated fragment written by the
+// scan instead of being handed back, i.e. in front of the rendering instead of after it).
+func ppWant(r *ppRunner, lines [][]byte, calls []specCall, pp *ppSpec, k1, k2 bool) ([]byte, bool) {
+	dropped := map[int]bool{}
+	early := map[int]bool{}
+	for i := range calls {
+		if k1 {
+			for _, k := range calls[i].K1 {
+				dropped[k] = true
+			}
+		}
+		if k2 && calls[i].K2 != 0 {
+			early[calls[i].K2] = true
+		}
+	}
+	var want []byte
+	for j, it := range pp.Items {
+		switch it.K {
+		case "line":
+			if dropped[it.I] || early[it.I] {
+				continue
+			}
+			want = append(want, lines[it.I-1]...)
+		case "render":
+			// fragments the scan wrote itself come out before the rendering of the same call
+			for _, later := range pp.Items[j+1:] {
+				if later.K == "line" && later.C == it.C && early[later.I] {
+					want = append(want, lines[later.I-1]...)
+				}
+			}
+			ro := r.render(cat(lines, calls[it.I-1].Cons))
+			if crashed(ro) != "" || ro.code != 0 {
+				return nil, false
+			}
+			want = append(want, ro.stdout...)
+		}
+	}
+	return want, true
+}
+
 // checkPP judges one stream given as concrete lines and the specification's calls.
-func checkPP(res *Result, r *ppRunner, lines [][]byte, calls []specCall, cs interface{}, tag string) {
+func checkPP(res *Result, r *ppRunner, lines [][]byte, calls []specCall, pp *ppSpec, cs interface{}, tag string) {
 	var data []byte
 	for _, l := range lines {
 		data = append(data, l...)
@@ -95,37 +137,23 @@ func checkPP(res *Result, r *ppRunner, lines [][]byte, calls []specCall, cs inte
 		res.violation(Finding{Property: "C03", Aspect: "pp", What: tag + ": pp " + c, Case: cs, Input: data, Observed: string(o.stderr)})
 		return
 	}
-	clean := true
-	for _, c := range calls {
-		if c.Err != "" && c.Err != "eof" {
-			clean = false
-		}
-	}
-	if !clean {
+	if !pp.Determined {
 		res.count("pp_streams_with_parse_error", 1)
 		return
 	}
-	if o.code != 0 {
-		res.violation(Finding{Property: "C02", Aspect: "pp-exit", What: fmt.Sprintf("%s: the specification predicts no error but pp exits %d: %s", tag, o.code, firstLine(string(o.stderr))), Case: cs, Input: data})
+	if o.code != pp.Status {
+		res.violation(Finding{Property: "C02", Aspect: "pp-exit", What: fmt.Sprintf("%s: the specification predicts exit status %d but pp exits %d: %s", tag, pp.Status, o.code, firstLine(string(o.stderr))), Case: cs, Input: data})
 		return
 	}
+	var want0 []byte
 	for _, v := range [][2]bool{{false, false}, {true, false}, {true, true}, {false, true}} {
-		var want []byte
-		for i := range calls {
-			c := &calls[i]
-			e := expectCall(lines, c, v[0], v[1])
-			want = append(want, e.fwd...)
-			if len(c.Snap) != 0 {
-				ro := r.render(cat(lines, c.Cons))
-				if crashed(ro) != "" || ro.code != 0 {
-					res.count("pp_render_alone_failed", 1)
-					return
-				}
-				want = append(want, ro.stdout...)
-			}
-			if c.Err == "eof" {
-				want = append(want, e.rest...)
-			}
+		want, ok := ppWant(r, lines, calls, pp, v[0], v[1])
+		if !ok {
+			res.count("pp_render_alone_failed", 1)
+			return
+		}
+		if want0 == nil {
+			want0 = want
 		}
 		if bytes.Equal(want, o.stdout) {
 			if v[0] {
@@ -139,20 +167,8 @@ func checkPP(res *Result, r *ppRunner, lines [][]byte, calls []specCall, cs inte
 			return
 		}
 	}
-	var want []byte
-	for i := range calls {
-		c := &calls[i]
-		e := expectCall(lines, c, false, false)
-		want = append(want, e.fwd...)
-		if len(c.Snap) != 0 {
-			want = append(want, r.render(cat(lines, c.Cons)).stdout...)
-		}
-		if c.Err == "eof" {
-			want = append(want, e.rest...)
-		}
-	}
 	res.violation(Finding{Property: "C02", Aspect: "pp-output", What: tag + ": pp exits 0 but its output is not its input with each dump replaced by its rendering", Case: cs, Input: data,
-		Expected: string(want), Observed: string(o.stdout)})
+		Expected: string(want0), Observed: string(o.stdout)})
 }
 
 func init() {
@@ -282,7 +298,7 @@ func init() {
 							}
 							lines[i] = renderLine(&alpha[k-1], eol, jr, false)
 						}
-						checkPP(res, r, lines, pc.Calls, pc, fmt.Sprintf("pipe case %d", j.i))
+						checkPP(res, r, lines, pc.Calls, &pc.PP, pc, fmt.Sprintf("pipe case %d", j.i))
 						res.eval(pc.raw, true, sampleEvery(j.i, 499, pc))
 					} else {
 						pc := j.print
@@ -291,7 +307,7 @@ func init() {
 						for i := range pc.Lines {
 							lines[i] = p.render(i, &pc.Lines[i], jr.Intn(4) == 0 && false)
 						}
-						checkPP(res, r, lines, pc.Calls, map[string]interface{}{"mode": pc.Mode, "lines": len(pc.Lines)}, fmt.Sprintf("print case %d", j.i))
+						checkPP(res, r, lines, pc.Calls, &pc.PP, map[string]interface{}{"mode": pc.Mode, "lines": len(pc.Lines)}, fmt.Sprintf("print case %d", j.i))
 						res.eval(pc.raw, true, nil)
 					}
 				}
